@@ -555,7 +555,7 @@ class ExprMixin:
                 return self.from_val(v)
             raise Unsupported("symbolic tuple index")
         h = base_hint(obj.hint)
-        if h == "list":
+        if h == "list" or self.is_listlike(obj):
             a = self.as_addr(obj)
             ln = self.hread("llen", (a,))
             i = self.norm_index(self.as_int(idx), ln)
@@ -585,6 +585,16 @@ class ExprMixin:
         mi, cnode, fnode = m
         pf = PyFunc(fnode, None, mi, cnode.name + ".__getitem__", bound_self=obj, cls=cnode.name)
         return self.call(py(pf, "func"), [idx], {}, n, None)
+
+    def is_listlike(self, tv):
+        """a list, or an instance of a list subclass (Arpeggio's NonTerminal)"""
+        h = base_hint(tv.hint)
+        if h == "list":
+            return True
+        if h.startswith("obj:"):
+            cn = h[4:]
+            return cn in CLASSES.by_name and CLASSES.is_sub(cn, "list")
+        return False
 
     def elem_hint(self, obj):
         if getattr(obj, "elem", None):
@@ -692,7 +702,7 @@ class ExprMixin:
                 "has", (obj.r.addr, nm), z3.BoolVal(True))
             return
         h = base_hint(obj.hint)
-        if h == "list":
+        if h == "list" or self.is_listlike(obj):
             a = self.as_addr(obj)
             ln = self.hread("llen", (a,))
             i = self.norm_index(self.as_int(idx), ln)
